@@ -151,13 +151,27 @@ def _filter_excluded(fnode, ev):
             v = defs[0].value
         else:
             # included-list idiom: for x in self._f: if x not in S: included.append(x) else: self._remove(x)
-            for n in walk_local(fnode):
-                if isinstance(n, ast.Call) and isinstance(n.func, ast.Attribute) and norm(n.func.value) == v.id and n.func.attr == "append":
-                    p = getattr(n, "_parent", None)
-                    while p is not None and not isinstance(p, ast.If):
-                        p = getattr(p, "_parent", None)
-                    if p is not None and isinstance(p.test, ast.Compare) and isinstance(p.test.ops[0], ast.NotIn):
-                        return norm(p.test.comparators[0])
+            # (any control-flow shape: if/else, guard clause with continue, …): on every path through the loop body the element is
+            # appended exactly when it is known not to be in S
+            for lp in walk_local(fnode):
+                if not (isinstance(lp, ast.For) and isinstance(lp.target, ast.Name)):
+                    continue
+                x = lp.target.id
+                hits = []
+
+                def probe(st, facts, x=x, hits=hits):
+                    if isinstance(st, ast.Expr) and isinstance(st.value, ast.Call) and isinstance(st.value.func, ast.Attribute) and st.value.func.attr == "append" \
+                            and norm(st.value.func.value) == v.id and st.value.args and norm(st.value.args[0]) == x:
+                        hits.append(facts)
+                paths = list(_stmt_paths(lp.body, frozenset(), {}, None, probe))
+                if not hits or any(oc is None for oc, fa, df in paths):
+                    continue
+                cands = None
+                for fa in hits:
+                    here = {m.group(1) for a in fa for m in [re.match(r"notin\(%s,(.*)\)$" % re.escape(x), a)] if m}
+                    cands = here if cands is None else cands & here
+                if cands and len(cands) == 1:
+                    return sorted(cands)[0]
             return None
     if isinstance(v, ast.Call) and v.args:
         v = v.args[0]
@@ -166,6 +180,163 @@ def _filter_excluded(fnode, ev):
             if isinstance(c, ast.Compare) and isinstance(c.ops[0], ast.NotIn):
                 return norm(c.comparators[0])
     return None
+
+
+def _expand(text, defs, depth=4):
+    for _ in range(depth):
+        before = text
+        for k in sorted(defs, key=len, reverse=True):
+            text = re.sub(r"(?<![\w.])%s(?![\w])" % re.escape(k), defs[k], text)
+        if text == before:
+            break
+    return text
+
+
+def _stmt_paths(stmts, facts, defs, flag, probe=None):
+    """enumerate the paths through a loop-free statement list: yields (outcome, facts, defs) with outcome one of
+    'fall', 'reject' (the flag was cleared), ('return', expr), 'break', 'continue'; None when a statement is outside the template"""
+    from ..pairing import alts_of
+    if not stmts:
+        yield ("fall", facts, defs)
+        return
+    st, rest = stmts[0], stmts[1:]
+
+    def cont(fa, df):
+        for r in _stmt_paths(rest, fa, df, flag, probe):
+            yield r
+    if isinstance(st, ast.Assign) and len(st.targets) == 1 and isinstance(st.targets[0], ast.Name):
+        nm = st.targets[0].id
+        if flag is not None and nm == flag and isinstance(st.value, ast.Constant) and st.value.value is False:
+            yield ("reject", facts, defs)
+            return
+        df = dict(defs)
+        df[nm] = "(%s)" % _expand(norm(st.value), defs) if not isinstance(st.value, (ast.Name, ast.Attribute, ast.Subscript)) else _expand(norm(st.value), defs)
+        for r in cont(facts, df):
+            yield r
+    elif isinstance(st, ast.If):
+        for pol, blk in ((True, st.body), (False, st.orelse)):
+            for alt in alts_of(st.test, pol):
+                fa = facts | frozenset(_expand(a, defs) for a in alt)
+                for (oc, f2, d2) in _stmt_paths(blk, fa, defs, flag, probe):
+                    if oc is None:
+                        yield (None, f2, d2)
+                    elif oc == "fall":
+                        for r in cont(f2, d2):
+                            yield r
+                    else:
+                        yield (oc, f2, d2)
+    elif isinstance(st, ast.Return):
+        yield (("return", st.value), facts, defs)
+    elif isinstance(st, ast.Break):
+        yield ("break", facts, defs)
+    elif isinstance(st, ast.Continue):
+        yield ("continue", facts, defs)
+    elif isinstance(st, (ast.Expr, ast.Pass)):
+        if probe is not None:
+            probe(st, facts)
+        for r in cont(facts, defs):
+            yield r
+    else:
+        yield (None, facts, defs)
+
+
+def _accepting_facts(P, f, elt, var, depth=0):
+    """fact sets (atoms over `var`) under which the per-element expression `elt` is true; follows one private predicate helper"""
+    from ..pairing import alts_of
+    if isinstance(elt, ast.Call) and isinstance(elt.func, ast.Attribute) and norm(elt.func.value) == "self" and len(elt.args) == 1 \
+            and norm(elt.args[0]) == var and f.cls is not None and depth < 2:
+        h = f.cls.methods.get(elt.func.attr) or (P.ir_lookup_method(f.cls.name, elt.func.attr) if f.cls.name in P.ir_classes else None)
+        if h is None or len(h.params) != 2:
+            return None
+        body = [s_ for s_ in h.node.body if not (isinstance(s_, ast.Expr) and isinstance(s_.value, ast.Constant))]
+        out = []
+        for oc, fa, df in _stmt_paths(body, frozenset(), {h.params[1]: var}, None):
+            if oc is None:
+                return None
+            if isinstance(oc, tuple) and oc[0] == "return" and oc[1] is not None:
+                if isinstance(oc[1], ast.Constant):
+                    if oc[1].value is True:
+                        out.append(fa)
+                    continue
+                for alt in alts_of(oc[1], True):
+                    out.append(fa | frozenset(_expand(a, df) for a in alt))
+            # falling off the end returns None: rejecting
+        return out
+    return [frozenset(alt) for alt in alts_of(elt, True)]
+
+
+def _has_bp_atom(facts, var, bp_names):
+    """the path established that the object whose back pointer is written belongs to this container: for an OuterPin handle that is
+    the pin stored in its instance's pin map (`<…>.pins[…]`), otherwise the element itself"""
+    outer = any(a.startswith("isinstance(%s," % var) and a.rstrip(")").split(".")[-1].endswith("OuterPin") for a in facts)
+    for a in facts:
+        m = re.match(r"(is|eq)\((.*)\)$", a)
+        if not m:
+            continue
+        body = m.group(2)
+        for b in bp_names:
+            if outer:
+                if re.search(r"\.pins\[[^\]]+\]\._?%s(,self$|$)" % re.escape(b), body) and ("self," in body or ",self" in body):
+                    return True
+            else:
+                if body in ("%s.%s,self" % (var, b), "self,%s.%s" % (var, b), "%s._%s,self" % (var, b.lstrip("_")), "self,%s._%s" % (var, b.lstrip("_"))):
+                    return True
+    return False
+
+
+def _universal_guard(P, f, facts, bp_names, excluded):
+    """every element of the excluded set was checked to belong to this container, whichever way the check is written:
+    assert all(<test over x> for x in S), all(self._predicate(x) for x in S), a flag cleared in a loop over S, with or without an
+    intermediate local holding the result"""
+    defs = {}
+    for a in facts:
+        m = re.match(r"def\((\w+),(.*)\)$", a)
+        if m:
+            defs[m.group(1)] = m.group(2)
+    cands = []
+    for a in facts:
+        m = re.match(r"truthy\((.*)\)$", a)
+        if m:
+            cands.append(m.group(1))
+    texts = []
+    for c in cands:
+        texts.append(c)
+        if c in defs:
+            texts.append(defs[c])
+    for txt in texts:
+        try:
+            e = ast.parse(txt, mode="eval").body
+        except SyntaxError:
+            continue
+        if isinstance(e, ast.Call) and norm(e.func) == "all" and e.args and isinstance(e.args[0], (ast.GeneratorExp, ast.ListComp)) \
+                and len(e.args[0].generators) == 1 and norm(e.args[0].generators[0].iter) == excluded and not e.args[0].generators[0].ifs:
+            var = norm(e.args[0].generators[0].target)
+            acc = _accepting_facts(P, f, e.args[0].elt, var)
+            if acc is not None and acc and all(_has_bp_atom(fa, var, bp_names) for fa in acc):
+                return True
+        if isinstance(e, ast.Name):
+            # flag idiom
+            flag = e.id
+            init_true = any(isinstance(n, ast.Assign) and len(n.targets) == 1 and norm(n.targets[0]) == flag and isinstance(n.value, ast.Constant)
+                            and n.value.value is True for n in walk_local(f.node))
+            loops = [lp for lp in walk_local(f.node) if isinstance(lp, ast.For) and norm(lp.iter) == excluded
+                     and any(isinstance(n, ast.Assign) and norm(n.targets[0]) == flag for n in ast.walk(lp))]
+            if init_true and len(loops) == 1:
+                var = norm(loops[0].target)
+                ok = True
+                n_acc = 0
+                for oc, fa, df in _stmt_paths(loops[0].body, frozenset(), {}, flag):
+                    if oc is None:
+                        ok = False
+                        break
+                    if oc == "reject" or oc == "break":
+                        continue  # a break is only reached after the flag was cleared in this idiom; a bare break rejects nothing and accepts nothing
+                    n_acc += 1
+                    if not _has_bp_atom(fa, var, bp_names):
+                        ok = False
+                if ok and n_acc:
+                    return True
+    return False
 
 
 def _all_guard(facts, bp_names, excluded):
@@ -371,7 +542,7 @@ def _o2(ctx, R):
                 if S is None:
                     R.bad("O2", "%s|%s|bulk-shape" % (f.key, rel.name), where, "%s: cannot identify the excluded set of the rebuild `%s`" % (f.qualname, short(re_.ev.stmt, 60)))
                     continue
-                if every(facts, lambda w: _all_guard(w, bp, S) or _flag_guard(f, w, bp, S)):
+                if every(facts, lambda w: _universal_guard(ctx.P, f, w, bp, S)):
                     R.ok("O2", inst + " guarded by all(x.%s == self for x in %s)" % (bp[1], S), where)
                 else:
                     R.bad("O2", "%s|%s|bulk-guard" % (f.key, rel.name), where,
